@@ -22,6 +22,7 @@ structure Params where
   useRng : Bool
   memOps : Bool
   t0Events : Bool
+  skew : Nat := 0
 deriving Repr
 
 def mix (z0 : UInt64) : UInt64 :=
@@ -176,7 +177,7 @@ def onEvent (P : Params) (me : Nat) (s : GState) (e : Event) : GState × List Ev
   let hh := mix (P.seed ^^^ (ty * 0x9e3779b1))
   let tick : List Event :=
     if e.type = P.nTypes - 1 then
-      let dq := delaysQ.getD (1 + ((hh >>> 8) % 6).toNat) 1
+      let dq := delaysQ.getD (1 + ((hh >>> 8) % 6).toNat) 1 * (1 + (me % 3) * P.skew)
       [mkEvent me (e.t + dq) e.type (sizes.getD (((hh >>> 24) % 8).toNat) 0) a (bit hh 40)]
     else []
   if e.type = 0 then (s', tick) else
